@@ -19,6 +19,11 @@ Import ListNotations.
    flips this when the fix commit for F04 (proposed_fixes/C03-F04.diff) lands *)
 Definition code_fixed_F04 := true.
 
+(* finding C03-N1 (a Send whose Write failed part-way leaves the connection
+   usable): false = the code as it is; the integrator flips this when
+   proposed_fixes/C03-N1.diff lands *)
+Definition code_fixed_C03N1 := false.
+
 Inductive dres := DVal (k : nat) | DErr.
 Inductive pentry := PE (cs : list chunk) (reg : bool) (d : dres).
 
@@ -67,6 +72,7 @@ Definition cut_segs (c : cutspec) (s : bytes) : list bytes :=
 
 Inductive case :=
 | CStream (lv : level) (limit : N) (ident : option nat) (pool : list pentry) (items : list item)
+          (failat : option N)      (* injected: the sender's Write that crosses this wire offset writes up to it and fails *)
           (cuts : cutspec)         (* how the stream was cut into segments *)
           (wire : list chunk)      (* OBSERVED: the bytes the sending side put on the wire *)
           (sends : list bool)      (* OBSERVED: Send returned nil, per IMsg *)
@@ -271,7 +277,7 @@ Definition conc_agree (pool : list pentry) (senders : list (list nat)) (limit : 
   | Some order =>
       let progs := fun i => match nth_error senders i with Some l => l | None => [] end in
       let msh := fun k : nat => Some (payload pb k) in
-      match SendConc.run msh true (sched_of pb order senders) (SendConc.init progs) with
+      match SendConc.run msh true code_fixed_C03N1 (sched_of pb order senders) (SendConc.init progs) with
       | None => false
       | Some s =>
           forallb (fun i => match SendConc.todo (SendConc.thr s i) with [] => true | _ => false end)
@@ -286,15 +292,70 @@ Definition conc_agree (pool : list pentry) (senders : list (list nat)) (limit : 
       end
   end.
 
+(* The sending side with an injected Write failure, as a run of Net/SendConc.v:
+   ONE goroutine sends the buffers ks; the Write call that crosses wire offset
+   [off] writes up to it and fails.  [pos] = bytes on the wire so far, [dead] =
+   the connection has been closed by a failed Send (fix C03-N1 only). *)
+Fixpoint fail_sched (fx : bool) (pb : list bytes) (ks : list nat) (pos : N) (f : option N) (dead : bool)
+  : list (nat * SendConc.act) :=
+  match ks with
+  | [] => []
+  | k :: r =>
+      let lb := lenN (payload pb k) in
+      if dead then
+        [(0, SendConc.ALock); (0, SendConc.AMarshal); (0, SendConc.AHeaderFail 0%N); (0, SendConc.AUnlock)]
+        ++ fail_sched fx pb r pos f dead
+      else
+        match f with
+        | Some off =>
+            if ((pos <=? off) && (off <? pos + 4 + lb))%N then
+              let m := (off - pos)%N in
+              (if (m <? 4)%N
+               then [(0, SendConc.ALock); (0, SendConc.AMarshal); (0, SendConc.AHeaderFail m); (0, SendConc.AUnlock)]
+               else [(0, SendConc.ALock); (0, SendConc.AMarshal); (0, SendConc.AHeader);
+                     (0, SendConc.AWriteFail (m - 4)%N); (0, SendConc.AUnlock)])
+              ++ fail_sched fx pb r (pos + m)%N None fx
+            else SendConc.whole_send 0 lb ++ fail_sched fx pb r (pos + 4 + lb)%N f dead
+        | None => SendConc.whole_send 0 lb ++ fail_sched fx pb r (pos + 4 + lb)%N f dead
+        end
+  end.
+
+Definition msg_indices (items : list item) : option (list nat) :=
+  fold_right (fun it acc => match it, acc with
+                            | IMsg k, Some l => Some (k :: l)
+                            | _, _ => None
+                            end) (Some []) items.
+
+Definition model_send_fail (pb : list bytes) (items : list item) (off : N) : option (bytes * list bool) :=
+  match msg_indices items with
+  | None => None                       (* failures are injected into streams of Send calls only *)
+  | Some ks =>
+      let progs := fun i => match i with O => ks | _ => [] end in
+      let msh := fun k : nat => Some (payload pb k) in
+      match SendConc.run msh true code_fixed_C03N1
+              (fail_sched code_fixed_C03N1 pb ks 0 (Some off) false) (SendConc.init progs) with
+      | Some s => Some (SendConc.wire s, map (@SendConc.c_ok nat) (SendConc.done s))
+      | None => None
+      end
+  end.
+
 Definition agree (c : case) : bool :=
   match c with
-  | CStream lv limit ident pool items cuts wire sends evs delivered closed _ _ crash hung =>
+  | CStream lv limit ident pool items failat cuts wire sends evs delivered closed _ _ crash hung =>
       let pb := pool_bytes pool in
       let w := expand pb wire in
       let segs := cut_segs cuts w in
       negb crash && negb hung &&
-      bytes_eqb w (model_wire pb items) &&           (* sender: sendRaw wrote what [send_raw] says *)
-      forallb (fun b => b) sends &&                   (* every Send reported success *)
+      match failat with
+      | None =>
+          bytes_eqb w (model_wire pb items) &&       (* sender: sendRaw wrote what [send_raw] says *)
+          forallb (fun b => b) sends                  (* every Send reported success *)
+      | Some off =>
+          match model_send_fail pb items off with    (* sender: the run of Net/SendConc.v with that failure *)
+          | Some (mw, ms) => bytes_eqb w mw && list_eqb Bool.eqb sends ms
+          | None => false
+          end
+      end &&
       match lv with
       | LConn => list_eqb cev_eqb evs (conn_events pool pb limit (fuel_for segs) segs)
       | LRouter =>
@@ -303,7 +364,7 @@ Definition agree (c : case) : bool :=
       | LTcp =>
           let (d, cl) := model_tcp pool pb ident limit segs in
           nats_eqb delivered d && Bool.eqb closed cl
-      | LSend => true
+      | LSend => false   (* the receiving side could not be set up: never a silent pass *)
       end
   | CDecode pool k obs _ _ => dobs_eqb obs (model_decode pool (pool_bytes pool) k)
   | CLocal pool items sends delivered _ _ crash =>
@@ -422,7 +483,7 @@ Definition all_true (l : list bool) : bool := forallb (fun b => b) l.
 
 Definition check (c : case) : list nat :=
   match c with
-  | CStream lv limit ident pool items cuts wire sends evs delivered closed valeq tyeq crash hung =>
+  | CStream lv limit ident pool items failat cuts wire sends evs delivered closed valeq tyeq crash hung =>
       let pb := pool_bytes pool in
       let d := match lv with LConn => conn_delivered evs | _ => delivered end in
       let cls := match lv with LConn => conn_closed evs | _ => closed end in
@@ -435,7 +496,11 @@ Definition check (c : case) : list nat :=
                               end
                     | _ => Some items
                     end in
-      clause 5 (negb crash) ++ clause 4 valeq ++ clause 9 tyeq ++ clause 8 (all_true sends) ++
+      (* with an injected Write failure the error of that Send (and, once the
+         connection is closed by it, of later ones) is legitimate; what returned
+         nil must still arrive: [drop_failed] *)
+      clause 5 (negb crash) ++ clause 4 valeq ++ clause 9 tyeq ++
+      clause 8 (match failat with None => all_true sends | Some _ => true end) ++
       match lv, items' with
       | LSend, _ => []
       | _, None => []
